@@ -31,6 +31,7 @@ import LinVerif.Lemmas.C09Compact
 import LinVerif.Lemmas.C09Hist
 import LinVerif.Lemmas.C09Blocks
 import LinVerif.Lemmas.C09Buf
+import LinVerif.Lemmas.C09FlushFault
 import LinVerif.Model.IdAssignView
 import LinVerif.Generated.C10
 
@@ -849,5 +850,200 @@ theorem stable_over_reused_buffer (c : Cfg) {nd : Node} (inv : NodeInv nd) (buf 
 /-- non-vacuity: the block is overwritten between two `GenMetricID` calls through the same two views -/
 example : (brun {} {} [.load [97, 110, 115, 48, 109, 48], .metric ⟨0, 4⟩ ⟨4, 2⟩, .load [97, 110, 115, 48, 109, 49],
       .metric ⟨0, 4⟩ ⟨4, 2⟩]).map (fun st => (st.nd.getMetric 97 0 0, st.nd.getMetric 97 0 1)) = some (some 0, some 1) := by decide
+
+
+/-! ## Round 9: faults inside an index flush (which of the four steps fails) × crash / reopen × new series
+
+Series ids have no sequence file: after a restart `createSeriesID` continues after the largest id in the
+metric→series postings. That is safe only while "the postings of a round are on disk before the dictionary
+entries that carry their ids" — which has two halves: the ORDER of the steps of `metricIndexDatabase.Flush`
+(`index_flush_order_tie`) and the EARLY RETURN when a step fails. Here the second half: the flush is a step
+list with a fault placement (`Node.flushFaultGo`), "a failed step aborts the round" is its modelled control
+flow (`Cfg.indexFlushAborts`, read from the regenerated `indexFlushStepGuards`), and the theorems quantify over
+all histories with any number of faulted flushes, any step failing, crashes after any prefix and reopen. -/
+
+/-- every step of both Flush methods is `if err := step(); err != nil { return err }` (no step's error is
+collected, ignored or deferred); the steps come in the order `Shard.flushStep` numbers them; the error
+branches of the two posting flushes do nothing but return (their `immutable` table stays for the next round),
+and both clear `immutable` only after `flusher.Close()` -/
+theorem flush_abort_tie :
+    currentIndexFlushSteps = [0, 1, 2, 3] ∧ currentCfg.indexFlushAborts = true ∧
+    (C09.indexFlushStepGuards.filter (fun g => isFlushStep g.1)).map (·.1) = C09.hookIndexFlushSteps ∧
+    C09.metaFlushStepGuards.map (·.1) = C09.hookMetaFlushSteps ∧ C09.metaFlushStepGuards.all (·.2) = true ∧
+    C09.invertedFlushErrBranchCalls.all (· = []) = true ∧ C09.forwardFlushErrBranchCalls.all (· = []) = true ∧
+    callsAfter C09.invertedFlushCalls "flusher.Close" = ["lock.Lock", "lock.Unlock"] ∧
+    callsAfter C09.forwardFlushCalls "flusher.Close" = ["lock.Lock", "lock.Unlock"] := by decide
+
+/-- **a failed step aborts the round**: whichever step fails, a faulted flush with lindb's control flow is a
+prefix of the flush — so a crash during or after it is one of the crash points `recover_ids` /
+`fresh_after_recover` already quantify over; it reports the error iff it stopped early -/
+theorem faulted_flush_is_prefix (sh : Shard) (k : Nat) :
+    ∃ j, j ≤ 4 ∧ (Node.flushFaultGo true k [0, 1, 2, 3] sh).1 = (List.range j).foldl Shard.flushStep sh ∧
+      ((Node.flushFaultGo true k [0, 1, 2, 3] sh).2 = true → j < 4) :=
+  flushFault_abort_is_prefix sh k
+
+/-- **the cover invariant is reachable**: after every history — get-or-create calls of every kind, PrepareFlush /
+Flush of both databases, failed metadata flushes, index flushes in which ANY step fails (any number of them,
+retried or not), crashes after any prefix of either flush, reopen — every entry of every shard's series
+dictionary has its metric→series posting at least as close to the disk as the entry itself -/
+theorem cover_reachable (c : Cfg) (hc : c.seriesLimitFirst = true) (hp : c.prepareSwapsEmpty = true)
+    (ha : c.indexFlushAborts = true) (lim : Limits) (n : Nat) (ops : List FOp) :
+    NodeCover (frun c [0, 1, 2, 3] { lim := lim, nShards := n } ops) :=
+  nodeCover_frun hc hp ha ops (nodeCover_init lim n)
+
+/-- **the recovered series sequence lies above every id of every committed dictionary, for all fault
+placements**: in the state after any such history (a), and in the state a crash at that moment leaves (b),
+the id the next new series of a metric gets is larger than every id the series dictionary answers for that
+metric. (b) is the statement about disk content: `recover` keeps exactly the committed families. -/
+theorem series_sequence_above_dictionary (c : Cfg) (hc : c.seriesLimitFirst = true) (hp : c.prepareSwapsEmpty = true)
+    (ha : c.indexFlushAborts = true) (lim : Limits) (n : Nat) (ops : List FOp) (sh m ts i : Nat) :
+    ((((frun c [0, 1, 2, 3] { lim := lim, nShards := n } ops).shards sh).series.lookup m ts = some i →
+      i < ((frun c [0, 1, 2, 3] { lim := lim, nShards := n } ops).shards sh).createSeriesID m)) ∧
+    ((((frun c [0, 1, 2, 3] { lim := lim, nShards := n } ops).shards sh).recover.series.lookup m ts = some i →
+      i < ((frun c [0, 1, 2, 3] { lim := lim, nShards := n } ops).shards sh).recover.createSeriesID m)) :=
+  ⟨fun h => (cover_reachable c hc hp ha lim n ops sh).new_id_unused h,
+   fun h => (coverInv_recover (cover_reachable c hc hp ha lim n ops sh)).new_id_unused h⟩
+
+/-- **injective across faulted flushes, crash and reopen**: a series that is new to the dictionary never gets
+an id the dictionary — live or recovered — answers for another tag set of the metric -/
+theorem new_series_id_unused (c : Cfg) (hc : c.seriesLimitFirst = true) (hp : c.prepareSwapsEmpty = true)
+    (ha : c.indexFlushAborts = true) (lim : Limits) (n : Nat) (ops : List FOp) (sh m ts ts' i : Nat) (tags : List (Nat × Nat))
+    (hold : ((frun c [0, 1, 2, 3] { lim := lim, nShards := n } ops).shards sh).series.lookup m ts = some i)
+    (hnew : ((frun c [0, 1, 2, 3] { lim := lim, nShards := n } ops).shards sh).series.lookup m ts' = none) :
+    ((frun c [0, 1, 2, 3] { lim := lim, nShards := n } ops).genSeries c sh m ts' tags).2 ≠ .id i := by
+  have hlt := (cover_reachable c hc hp ha lim n ops sh).new_id_unused hold
+  generalize frun c [0, 1, 2, 3] { lim := lim, nShards := n } ops = nd at *
+  unfold Node.genSeries
+  simp only [hnew]
+  by_cases over : nd.lim.maxSeries > 0 ∧ nd.lim.maxSeries < (nd.shards sh).createSeriesID m
+  · rw [if_pos ⟨hc, over⟩]; intro h; cases h
+  · rw [if_neg (fun h => over h.2), if_neg over]
+    intro h
+    have : (nd.shards sh).createSeriesID m = i := by injection h
+    omega
+
+namespace Neg
+
+/-- a Flush that carries on after a failed step (e.g. `errors.Join(step1(), …, step4())`): series `a` (tags hash
+1) of metric 0 is created, PrepareFlush, the postings step fails, the dictionary step commits `a ↦ 0` all the
+same; the process dies. The recovered dictionary answers 0 for `a`, the recovered postings are empty, and the
+NEW series `b` gets id 0 as well. Fault on the forward / inverted / dictionary step: harmless. -/
+theorem flush_join_reuses_series_id :
+    let c : Cfg := { seriesLimitFirst := true, prepareSwapsEmpty := true, indexFlushAborts := false }
+    let nd := frun c [0, 1, 2, 3] {} [.op (.series 0 0 1 []), .op (.indexPrepare 0), .indexFlushFault 0 0, .op .reopen]
+    (nd.shards 0).series.lookup 0 1 = some 0 ∧ (nd.genSeries c 0 0 2 []).2 = .id 0 := by decide
+
+/-- the same history with lindb's control flow: nothing of the round is committed, `a` is simply lost by the
+crash and created again -/
+theorem flush_abort_same_history :
+    let c : Cfg := { seriesLimitFirst := true, prepareSwapsEmpty := true, indexFlushAborts := true }
+    let nd := frun c [0, 1, 2, 3] {} [.op (.series 0 0 1 []), .op (.indexPrepare 0), .indexFlushFault 0 0, .op .reopen]
+    (nd.shards 0).series.lookup 0 1 = none ∧ (nd.genSeries c 0 0 2 []).2 = .id 0 ∧
+    ((nd.genSeries c 0 0 2 []).1.genSeries c 0 0 1 []).2 = .id 1 := by decide
+
+/-- without the crash the carried-on flush is not observable: the retained postings go out with the retry
+round (the witness needs fault AND crash) -/
+theorem flush_join_retry_heals :
+    let c : Cfg := { seriesLimitFirst := true, prepareSwapsEmpty := true, indexFlushAborts := false }
+    let nd := frun c [0, 1, 2, 3] {} [.op (.series 0 0 1 []), .op (.indexPrepare 0), .indexFlushFault 0 0,
+      .op (.indexPrepare 0), .op (.indexFlush 0), .op .reopen]
+    (nd.shards 0).series.lookup 0 1 = some 0 ∧ (nd.genSeries c 0 0 2 []).2 = .id 1 := by decide
+
+/-- why `cover_reachable` asks for the PrepareFlush shape lindb has now (swap when nil OR empty, commit a4b424c): with
+the old test (`immutable == nil`) a faulted round desynchronises the tables — series a (with a tag), PrepareFlush, the
+forward step fails (postings flushed, dictionary still frozen); the next PrepareFlush freezes an EMPTY postings table,
+which then sticks for ever while the dictionary keeps swapping; series b's dictionary entry is flushed, its posting
+never; after a crash the new series c gets b's id -/
+theorem flush_fault_old_prepare_shape :
+    let c : Cfg := { seriesLimitFirst := true, prepareSwapsEmpty := false, indexFlushAborts := true }
+    let nd := frun c [0, 1, 2, 3] {} [.op (.series 0 0 1 [(1, 1)]), .op (.indexPrepare 0), .indexFlushFault 0 1,
+      .op (.indexPrepare 0), .op (.indexFlush 0), .op (.series 0 0 2 []), .op (.indexPrepare 0), .op (.indexFlush 0), .op .reopen]
+    (nd.shards 0).series.lookup 0 2 = some 1 ∧ (nd.genSeries c 0 0 3 []).2 = .id 1 := by decide
+
+end Neg
+
+/-- what holds for a Flush that aborts on a failed step / that carries on -/
+def FlushFaultVerdict : Bool → Prop
+  | true => ∀ (c : Cfg), c.seriesLimitFirst = true → c.prepareSwapsEmpty = true → c.indexFlushAborts = true →
+      ∀ (lim : Limits) (n : Nat) (ops : List FOp) (sh m ts ts' i : Nat) (tags : List (Nat × Nat)),
+      ((frun c [0, 1, 2, 3] { lim := lim, nShards := n } ops).shards sh).series.lookup m ts = some i →
+      ((frun c [0, 1, 2, 3] { lim := lim, nShards := n } ops).shards sh).series.lookup m ts' = none →
+      ((frun c [0, 1, 2, 3] { lim := lim, nShards := n } ops).genSeries c sh m ts' tags).2 ≠ .id i
+  | false =>
+      let c : Cfg := { seriesLimitFirst := true, prepareSwapsEmpty := true, indexFlushAborts := false }
+      let nd := frun c [0, 1, 2, 3] {} [.op (.series 0 0 1 []), .op (.indexPrepare 0), .indexFlushFault 0 0, .op .reopen]
+      (nd.shards 0).series.lookup 0 1 = some 0 ∧ (nd.genSeries c 0 0 2 []).2 = .id 0
+
+/-- **flush_fault_verdict**: decided for the control flow /repo's `metricIndexDatabase.Flush` has now; the
+hypotheses of the positive arm are what /repo has now, too -/
+theorem flush_fault_verdict : FlushFaultVerdict currentCfg.indexFlushAborts ∧
+    currentCfg.seriesLimitFirst = true ∧ currentCfg.prepareSwapsEmpty = true := by
+  refine ⟨?_, by decide, by decide⟩
+  cases h : currentCfg.indexFlushAborts with
+  | true => exact fun c hc hp ha lim n ops sh m ts ts' i tags => new_series_id_unused c hc hp ha lim n ops sh m ts ts' i tags
+  | false => exact Neg.flush_join_reuses_series_id
+
+/-- non-vacuity: a history with two rounds, a fault on the forward step of the second, the retry, a crash —
+the hypotheses hold for a state in which dictionary, frozen and committed postings are all non-empty -/
+example :
+    let c : Cfg := { seriesLimitFirst := true, prepareSwapsEmpty := true }
+    let nd := frun c [0, 1, 2, 3] {} [.op (.series 0 0 1 [(1, 1)]), .op (.indexPrepare 0), .op (.indexFlush 0),
+      .op (.series 0 0 2 [(1, 2)]), .op (.indexPrepare 0), .indexFlushFault 0 1, .op (.series 0 0 3 [])]
+    (nd.shards 0).series.lookup 0 2 = some 1 ∧ (nd.shards 0).series.needFlush = true ∧
+    (nd.shards 0).minv.disk.length = 2 ∧ (nd.shards 0).createSeriesID 0 = 3 := by decide
+
+
+/-! ## Round 9: namespace / metric-name limits — a createFn that fails inside `createValue` -/
+
+/-- `genNSID` / `genMetricID` test the limit against the number of ids handed out so far BEFORE they take the
+next counter value; `createValue` has made the bucket's map when createFn runs (`mutable.Put` before
+`createFn`), stores the name only after createFn succeeded (`string(key)` after it), and its error branches
+do nothing but return -/
+theorem name_limits_tie :
+    C09.metaGenNSIDCalls = ["models.GetDatabaseLimits", "limits.EnableNamespacesCheck", "sequence.GetNamespaceSeq", "sequence.GenNamespaceSeq"] ∧
+    C09.metaGenMetricIDFnCalls = ["models.GetDatabaseLimits", "limits.EnableMetricsCheck", "sequence.GetMetricNameSeq", "sequence.GenMetricNameSeq"] ∧
+    (callsBefore C09.kvCreateValueCalls "createFn").contains "mutable.Put" = true ∧
+    callsAfter C09.kvCreateValueCalls "createFn" = ["string"] ∧
+    C09.kvCreateValueErrBranchCalls.all (· = []) = true := by decide
+
+/-- with both limits off (the default, `ns_metric_limits_off_tie`) the limit-aware `GenMetricID` IS the one all
+other theorems speak about -/
+theorem name_limits_off_is_genMetric (c : Cfg) (nd : Node) (nb ns name : Nat)
+    (h1 : nd.lim.maxNamespaces = 0) (h2 : nd.lim.maxMetrics = 0) :
+    nd.genMetricLim c nb ns name = ((nd.genMetric c nb ns name).1, .out (nd.genMetric c nb ns name).2) :=
+  genMetricLim_off c nd nb ns name h1 h2
+
+/-- **a refused name changes no id** (any limits, any state satisfying the metadata invariant): the invariant
+is kept — so every later operation is covered by the sequential theorems again —, every name that had an id
+keeps it, the shards are untouched, and nothing is stored under the refused name -/
+theorem refused_name_changes_no_id (c : Cfg) {nd : Node} (inv : NodeInv nd) (nb ns name : Nat)
+    (href : (nd.genMetricLim c nb ns name).2 = .tooManyNamespaces ∨ (nd.genMetricLim c nb ns name).2 = .tooManyMetrics) :
+    NodeInv (nd.genMetricLim c nb ns name).1 ∧
+    (∀ key i, nd.view key = some i → (nd.genMetricLim c nb ns name).1.view key = some i) ∧
+    (nd.genMetricLim c nb ns name).1.view (.md (.metric nb ns name)) = none := by
+  obtain ⟨mi, mono, hn⟩ := genMetricLim_refused c inv.md nb ns name href
+  have hs := genMetricLim_shards c nd nb ns name
+  refine ⟨⟨mi, fun k => by rw [hs]; exact inv.sh k⟩, ?_, hn⟩
+  intro key i h
+  cases key with
+  | md k => exact mono k i h
+  | series sh m ts =>
+    show ((nd.genMetricLim c nb ns name).1.shards sh).series.lookup m ts = some i
+    rw [hs]; exact h
+
+/-- a refusal is reachable and is what the witness case replays: limits 1 / 2 admit two namespaces and three
+metric names (`limit < ids handed out`); the refused name is not found afterwards; lifting the limit gives it
+a fresh id -/
+example :
+    let c : Cfg := currentCfg
+    let nd0 : Node := { lim := { maxNamespaces := 1, maxMetrics := 2 } }
+    let r1 := nd0.genMetricLim c 97 0 0
+    let r2 := r1.1.genMetricLim c 98 1 0
+    let r3 := r2.1.genMetricLim c 99 2 0
+    let r4 := r3.1.genMetricLim c 97 0 1
+    let r5 := r4.1.genMetricLim c 97 0 2
+    let nd6 : Node := { r5.1 with lim := {} }
+    (r1.2, r2.2, r3.2, r4.2, r5.2) = (.out (.id 0), .out (.id 1), .tooManyNamespaces, .out (.id 2), .tooManyMetrics) ∧
+    r5.1.getMetric 97 0 2 = none ∧ r5.1.ns.mutEmpty = false ∧ (nd6.genMetricLim c 97 0 2).2 = .out (.id 3) := by decide
 
 end LinVerif.Props.C09
